@@ -340,7 +340,7 @@ func TestProp(t *testing.T) {
 										continue
 									}
 									if sig != nil {
-										c.FailNow(sig, msg, render(pl, calls, reserve), map[string]any{"flags": flags, "plugin": pl.name})
+										c.FailNow(sig, msg, render(pl, calls, reserve), metaOf(pl, calls, flags, reserve))
 									}
 								}
 							}
@@ -376,17 +376,49 @@ func TestProp(t *testing.T) {
 			return
 		}
 		if sig != nil {
-			c.Fail(rt, sig, msg, render(pl, calls, reserve), map[string]any{"flags": flags, "plugin": pl.name})
+			c.Fail(rt, sig, msg, render(pl, calls, reserve), metaOf(pl, calls, flags, reserve))
 		}
 	})
 }
 
 func TestProbes(t *testing.T) { pkit.Load(prop).RunProbes(t, nil) }
 
+func metaOf(pl plug, calls []call, flags []string, reserve bool) map[string]any {
+	var cs []map[string]any
+	for _, c := range calls {
+		cs = append(cs, map[string]any{"name": c.name, "type": c.typ, "file": c.file})
+	}
+	return map[string]any{"flags": flags, "plugin": pl.name, "calls": cs, "reserve": reserve}
+}
+
 func TestReplay(t *testing.T) {
 	dir := pkit.ReplayDir()
 	if dir == "" {
 		t.Skip("no replay dir")
 	}
-	t.Skip("C11 replays: the module under <dir>/module with the flags in replay.json; re-run `./vcheck C11 quick` (the enumeration is deterministic)")
+	meta, _, err := pkit.ReadReplay(dir)
+	if err != nil {
+		t.Fatal(err)
+	}
+	var pl plug
+	for _, p := range plugs {
+		if p.name == meta["plugin"] {
+			pl = p
+		}
+	}
+	var calls []call
+	for _, x := range meta["calls"].([]any) {
+		m := x.(map[string]any)
+		calls = append(calls, call{name: m["name"].(string), typ: m["type"].(string), file: int(m["file"].(float64))})
+	}
+	var flags []string
+	if fl, ok := meta["flags"].([]any); ok {
+		for _, f := range fl {
+			flags = append(flags, f.(string))
+		}
+	}
+	reserve, _ := meta["reserve"].(bool)
+	if sig, msg := judge(pkit.Load(prop), pl, calls, flags, reserve); sig != nil {
+		t.Fatalf("still fails: %v\n%s", sig, msg)
+	}
 }
